@@ -414,6 +414,36 @@ def shrink_history(ck, c):
     return best
 
 
+def is_labeldoc(c):
+    return "/labeldoc-" in c.get("class", "")
+
+
+def shrink_rows(ck, c, still_bad):
+    """a violating request over scripted label documents: find ONE row that violates on its own (each candidate in its
+    own child process); the replay is then the request with that row's text as the whole result set"""
+    rows = [r for rs in c.get("script") or [] for r in rs.get("rows") or []]
+    seen, cands = set(), []
+    for k, row in enumerate(rows):
+        key = json.dumps(row, sort_keys=True)
+        if key in seen:
+            continue
+        seen.add(key)
+        x = {kk: v for kk, v in c.items() if kk not in ("obs", "expect_items")}
+        x["id"] = c["id"] * 1000 + k
+        x["script"] = [dict(c["script"][0], rows=[row])]
+        x["model"] = dict(c["model"], rows=["ok"])
+        cands.append(x)
+    pth = os.path.join(ck.work, "shrink_rows_in.jsonl")
+    with open(pth, "w") as f:
+        for x in cands:
+            f.write(json.dumps(x) + "\n")
+    res = run_harness(ck, ["--cases", pth, "--batch", 1, "--par", 8], "shrink_rows") or []
+    viol = [x for x in res if x.get("obs") and still_bad(x)]
+    if not viol:
+        return c
+    return min(viol, key=lambda x: len(json.dumps(x["script"][0]["rows"])))
+
+
 # ------------------------------------------------------------------------------ harness
 def run_harness(ck, args, tag):
     outp = os.path.join(ck.work, tag + ".jsonl")
@@ -429,7 +459,7 @@ def run_harness(ck, args, tag):
 def strip(c):
     """what goes into a replay file: the request, the script, the observation"""
     d = {k: c[k] for k in ("class", "method", "path", "params", "script") if k in c}
-    for k in ("accept", "body", "body_hex", "ctype", "model", "wait_ms", "abort_after", "tcp", "ws", "boot", "cold", "hang_up", "then", "max_conns"):
+    for k in ("accept", "body", "body_hex", "ctype", "model", "wait_ms", "abort_after", "tcp", "ws", "boot", "cold", "hang_up", "then", "max_conns", "expect_items"):
         if k in c and c[k] not in (None, "", False, {}) :
             d[k] = c[k]
     d["id"] = c["id"]
@@ -605,7 +635,7 @@ def run(ck):
         res = run_harness(ck, ["--cases", p], "replay") or []
         for c in res:
             print("REPLAY id=%s class=%s observed=%s %s" % (c["id"], c["class"], CODE_NAME.get(obs_code(c["obs"])), json.dumps(c["obs"])))
-            if obs_code(c["obs"]) in (3, 4, 5, 6, 7, 10):
+            if obs_code(c["obs"]) in (3, 4, 5, 6, 7, 10) or (c.get("expect_items") is not None and obs_code(c["obs"]) == 0 and c["obs"].get("items") != c["expect_items"]):
                 ck.violation({"property": "C12", "kind": "replayed case still violates", "case": strip(c)})
         return
     cases = []
@@ -691,11 +721,27 @@ def run(ck):
                   not FM, "mismatching %s" % [show(i) for i in FM[:6]])
     ck.obligation("spec oracle: every request of the forwarding endpoints ends in an HTTP response with nothing left behind",
                   not FV, "violating %s" % [show(i) for i in FV[:6]])
+    # series endpoints over stored label documents cut at every byte position: the answer holds exactly the complete documents
+    ldoc = [c for c in fwd if is_labeldoc(c)]
+    judged = [c for c in ldoc if c.get("expect_items") is not None and obs_code(c["obs"]) == 0]
+    wrong_items = [c for c in judged if c["obs"].get("items") != c["expect_items"]]
+    ck.obligation("series endpoints over %d requests / %d stored label documents (JSON and strconv.Quote forms cut at every byte position, one-byte mutants): "
+                  "the answer is a JSON document holding exactly the complete documents among the rows" % (len(ldoc), sum(len(c["script"][0]["rows"]) for c in ldoc)),
+                  not wrong_items, "wrong %s" % [(c["id"], c["class"], "series answered %s, complete documents %s" % (c["obs"].get("items"), c["expect_items"])) for c in wrong_items[:5]])
     if FV:
         w = min((fbyid[i] for i in FV), key=size_of)
-        ck.violation({"property": "C12", "kind": "request does not end in an orderly HTTP response: " + CODE_NAME[obs_code(w["obs"])],
-                      "model_predicted": CODE_NAME.get(fpred[w["id"]] // 1000), "case": strip(w), "others": len(FV) - 1,
-                      "replay": "bin/check C12 --replay <this file>"})
+        extra = {}
+        if is_labeldoc(w):
+            w = shrink_rows(ck, w, lambda x: obs_code(x["obs"]) in BAD_CODES)
+            extra = {"row_text": [cell.get("s") for r in w["script"][0]["rows"] for cell in r], "panic": w["obs"].get("panic", "")[:300]}
+        ck.violation(dict({"property": "C12", "kind": "request does not end in an orderly HTTP response: " + CODE_NAME[obs_code(w["obs"])],
+                      "model_predicted": CODE_NAME.get(fpred.get(w["id"], 1) // 1000), "case": strip(w), "others": len(FV) - 1,
+                      "replay": "bin/check C12 --replay <this file>"}, **extra))
+    elif wrong_items:
+        w = min(wrong_items, key=size_of)
+        ck.violation({"property": "C12", "kind": "series request over stored label documents: %s series answered, %s complete documents among the rows (json_ok=%s)" % (
+                          w["obs"].get("items"), w["expect_items"], w["obs"].get("json_ok")),
+                      "case": strip(w), "others": len(wrong_items) - 1, "replay": "bin/check C12 --replay <this file>"})
     elif FM:
         w = min((fbyid[i] for i in FM), key=size_of)
         ck.violation({"property": "C12", "kind": "model and implementation disagree on (outcome class, statements issued); both orderly",
@@ -904,6 +950,10 @@ def run(ck):
     ck.extra["modelled_prometheus_requests"] = len(prom)
     ck.extra["prometheus_model_decisions"] = {PNAME.get(k, str(k)): PP.count(k) for k in sorted(set(PP))}
     ck.extra["modelled_forwarding_requests"] = len(fwd)
+    ck.extra["series_label_documents"] = {"requests": len(ldoc), "rows": sum(len(c["script"][0]["rows"]) for c in ldoc),
+                                          "rows_cut_right_after_a_quoted_name_or_value": sum(1 for c in ldoc for r in c["script"][0]["rows"] if (r[0].get("s") or "").endswith('"')),
+                                          "by_class": {k: sum(1 for c in ldoc if c["class"] == k) for k in sorted({c["class"] for c in ldoc})},
+                                          "series_answered": sum(c["obs"].get("items") or 0 for c in judged)}
     ck.extra["statements_issued_histogram"] = {str(k): sum(1 for c in fwd if c["obs"].get("stmts") == k) for k in sorted({c["obs"].get("stmts", -1) for c in fwd})}
     ck.extra["test_only_requests"] = len(testonly)
     ck.extra["level_note_test"] = "the test-only stream is a test (response + liveness + goroutine census), not covered by a theorem"
